@@ -100,4 +100,6 @@ class Frontend:
             if isinstance(ch, ast.Assign) and len(ch.targets) == 1 and isinstance(ch.targets[0], ast.Name):
                 if isinstance(ch.value, ast.Constant) and isinstance(ch.value.value, (int, float)) and not isinstance(ch.value.value, bool):
                     out[ch.targets[0].id] = ch.value.value
+                elif ast.unparse(ch.value) == "sys.float_info.epsilon":
+                    out[ch.targets[0].id] = 2.220446049250313e-16
         return out
